@@ -2,7 +2,7 @@
 import json, os
 from ..facts import ty_adt, tystr, walk_ty, place_local, place_proj, op_place, strip_refs
 from ..cfg import CFG, Tracer, thaw
-from .. import dt, core
+from .. import inline, dt, core
 
 HASH_ADTS = ("std::collections::hash::map::HashMap", "std::collections::hash::set::HashSet", "hashbrown::map::HashMap", "hashbrown::set::HashSet")
 HASH_ITER = {"iter", "iter_mut", "keys", "values", "values_mut", "into_iter", "into_keys", "into_values", "drain", "retain",
@@ -126,7 +126,7 @@ def run(ctx):
             base = d.split("::<")[0]
             if base in WRITE_FNS or (base.startswith("std::fs::") and t["call"].get("name") in ("write", "create", "create_dir_all", "rename", "copy", "remove_file", "remove_dir_all")):
                 writes.append((b, bb, t, WRITE_FNS.get(base, 0) or 0))
-    ctx.floor("R20.3", "file-system write calls in conjure_codegen", len(writes), 5)
+    ctx.floor("R20.3", "file-system write calls in conjure_codegen", len(writes), 2)
     gen = [b for b in cg.bodies if b.name == "generate_files" and b.d.get("vis") == "pub"]
     if len(gen) != 1:
         ctx.violation("R20.3", "conjure_codegen", "anchor|generate_files", "public generate_files not found")
@@ -224,7 +224,8 @@ def run(ctx):
     if len(main) != 1:
         ctx.violation("R20.4", "conjure_rust", "anchor|main", "main not found")
         return
-    main = main[0]
+    # the flag -> Config translation may live in a private helper of the CLI
+    main = inline.expand(cr, main[0], depth=2, pred=lambda cb: cb.d.get("vis") != "pub" or cb.id.startswith("conjure_rust::"))
     args_adt = None
     for path, a in cr.adts.items():
         if a.get("local") and a["kind"] == "struct" and any(f["name"] == "output_directory" or f["name"] == "exhaustive" for f in a["variants"][0]["fields"]):
